@@ -25,9 +25,11 @@ import (
 	"context"
 	"encoding/json"
 	"fmt"
+	gonet "net"
 	"os"
 	"os/exec"
 	"path/filepath"
+	"sort"
 	"strings"
 	"sync"
 	"time"
@@ -49,16 +51,35 @@ type c19Req struct {
 	Svc  int    `json:"svc"`
 	Kind string `json:"kind"`           // proxy | object | hook
 	Gone bool   `json:"gone,omitempty"` // the service is unregistered at that moment: the request must only return
+	// the request names an object (77) that the service does not have: it goes through the session
+	// like any other, the server answers the metaObject call / the call with an error, and the request
+	// only has to return — the shared connection is as good as before
+	NoObj bool `json:"noobj,omitempty"`
+}
+
+// one change of the directory inside a burst of changes (phase "regs")
+type c19RegOp struct {
+	Op  string `json:"op"`  // add | del | move (unregister and register again at once)
+	Svc int    `json:"svc"` // add: a service index never used before
+	To  int    `json:"to"`  // add / move: endpoint whose server hosts it; -1: the directory's own server
+	Gap int    `json:"gap"` // microseconds between the previous change (par: the common start) and this one
 }
 
 type c19Phase struct {
-	Kind string   `json:"kind"` // burst | lose | unreg | rereg
-	Reqs []c19Req `json:"reqs,omitempty"`
-	Seq  bool     `json:"seq,omitempty"`
-	End  int      `json:"end,omitempty"`
-	How  string   `json:"how,omitempty"` // peer | garbage | local
-	Svc  int      `json:"svc,omitempty"`
-	To   int      `json:"to,omitempty"`
+	Kind string     `json:"kind"` // burst | lose | unreg | rereg | regs
+	Reqs []c19Req   `json:"reqs,omitempty"`
+	Seq  bool       `json:"seq,omitempty"`
+	End  int        `json:"end,omitempty"`
+	How  string     `json:"how,omitempty"` // peer | garbage | local
+	Svc  int        `json:"svc,omitempty"`
+	To   int        `json:"to,omitempty"`
+	Ops  []c19RegOp `json:"ops,omitempty"` // regs: the changes, microseconds apart
+	Par  bool       `json:"par,omitempty"` // regs: every change from its own goroutine
+	// regs, life with Relay: the first change alone; the reply to the Services() call it triggers is held
+	// by the relay (so every further change happens after that snapshot); then the reply and the signals
+	// of the further changes reach the session in one write
+	Forced bool     `json:"forced,omitempty"`
+	Bg     []c19Req `json:"bg,omitempty"` // regs: requests repeated by one goroutine each while the directory changes
 }
 
 type c19Life struct {
@@ -66,6 +87,14 @@ type c19Life struct {
 	NSvc   int        `json:"nsvc"`
 	Phases []c19Phase `json:"phases"`
 	Dir    string     `json:"dir"`
+	// the client session reaches the directory through a relay of the harness (a unix socket that
+	// forwards every frame in order, and can delay the frames towards the session)
+	Relay bool `json:"relay,omitempty"`
+	// every service behind an endpoint advertises TWO addresses, the first of which cannot be connected:
+	// 1: tcp://198.18.0.1:9559 (test range, as real robots advertise; SelectEndPoint skips it),
+	// 2: a unix socket that does not exist (the dial fails).  The connection — and the pool entry — is
+	// the second address's.
+	Multi int `json:"multi,omitempty"`
 }
 
 type c19PhaseObs struct {
@@ -77,7 +106,16 @@ type c19PhaseObs struct {
 	Held     int    `json:"held"`
 	Expected int    `json:"expected"`
 	Noticed  bool   `json:"noticed"` // lose: the pool dropped the endpoint and the connection is closed
-	Listed   bool   `json:"listed"`  // unreg / rereg: the session's service list followed
+	Listed   bool   `json:"listed"`  // unreg / rereg / regs: the session's service list followed
+	// regs: the services life_* as (service, endpoint, how many times registered so far) in the session's
+	// list once it matched what the harness registered, or 3 s after the directory went quiet; the same
+	// read from the directory itself through another connection at that moment
+	View     [][3]int `json:"view,omitempty"`
+	DirView  [][3]int `json:"dir_view,omitempty"`
+	WaitedMs int      `json:"waited_ms,omitempty"` // regs: how long the harness waited for the session's list
+	Held2    bool     `json:"held2,omitempty"`     // regs, forced: the reply of the refresh was held while the further changes were made
+	BgN      []int    `json:"bg_n,omitempty"`      // regs: requests made by each background goroutine
+	BgErr    []string `json:"bg_err,omitempty"`    // ... and the first failure of each
 }
 
 type c19LifeResult struct {
@@ -90,6 +128,155 @@ type c19LifeResult struct {
 }
 
 func c19LifeSvc(s int) string { return fmt.Sprintf("life_%d", s) }
+
+// ---------- relay between the client session and the directory ----------
+
+// c19Relay forwards the frames between the session and the directory, in order.  When armed it
+// holds back the reply to the next Services() call of the session, and everything the directory
+// sends after it, until release(): a delay on the connection, never a reordering.
+type c19Relay struct {
+	mu      sync.Mutex
+	action  uint32 // action id of ServiceDirectory.services
+	armed   bool
+	waiting bool // the call has been seen, its reply not yet
+	callID  uint32
+	holding bool
+	queue   [][]byte
+	heldCh  chan struct{}
+	down    gonet.Conn // towards the session
+}
+
+func c19Frame(m *net.Message) []byte {
+	var b bytes.Buffer
+	m.Write(&b)
+	return b.Bytes()
+}
+
+func newC19Relay(path, dirPath string, action uint32) (*c19Relay, error) {
+	l, err := gonet.Listen("unix", path)
+	if err != nil {
+		return nil, err
+	}
+	r := &c19Relay{action: action, heldCh: make(chan struct{}, 4)}
+	go func() {
+		for {
+			down, err := l.Accept()
+			if err != nil {
+				return
+			}
+			up, err := gonet.Dial("unix", dirPath)
+			if err != nil {
+				down.Close()
+				continue
+			}
+			r.mu.Lock()
+			r.down = down
+			r.mu.Unlock()
+			go func() { // session -> directory
+				defer up.Close()
+				for {
+					var m net.Message
+					if err := m.Read(down); err != nil {
+						return
+					}
+					r.mu.Lock()
+					if r.armed && !r.waiting && m.Header.Type == net.Call && m.Header.Service == 1 && m.Header.Object == 1 && m.Header.Action == r.action {
+						r.waiting, r.callID = true, m.Header.ID
+					}
+					r.mu.Unlock()
+					if _, err := up.Write(c19Frame(&m)); err != nil {
+						return
+					}
+				}
+			}()
+			go func() { // directory -> session
+				defer down.Close()
+				for {
+					var m net.Message
+					if err := m.Read(up); err != nil {
+						return
+					}
+					f := c19Frame(&m)
+					r.mu.Lock()
+					switch {
+					case r.holding:
+						r.queue = append(r.queue, f)
+					case r.armed && r.waiting && m.Header.Type == net.Reply && m.Header.ID == r.callID:
+						r.holding, r.armed, r.waiting = true, false, false
+						r.queue = [][]byte{f}
+						select {
+						case r.heldCh <- struct{}{}:
+						default:
+						}
+					default:
+						down.Write(f)
+					}
+					r.mu.Unlock()
+				}
+			}()
+		}
+	}()
+	return r, nil
+}
+
+func (r *c19Relay) arm() {
+	r.mu.Lock()
+	r.armed, r.waiting = true, false
+	for len(r.heldCh) > 0 {
+		<-r.heldCh
+	}
+	r.mu.Unlock()
+}
+
+// behind: frames that arrived after the held reply
+func (r *c19Relay) behind() int {
+	r.mu.Lock()
+	defer r.mu.Unlock()
+	if !r.holding {
+		return 0
+	}
+	return len(r.queue) - 1
+}
+
+// release writes the held reply and everything behind it in one piece
+func (r *c19Relay) release() {
+	r.mu.Lock()
+	r.armed, r.waiting = false, false
+	if r.holding {
+		var all []byte
+		for _, f := range r.queue {
+			all = append(all, f...)
+		}
+		r.down.Write(all)
+		r.holding, r.queue = false, nil
+	}
+	r.mu.Unlock()
+}
+
+// the number of service indices a life uses
+func (lf c19Life) total() int {
+	n := lf.NSvc
+	for _, ph := range lf.Phases {
+		for _, op := range ph.Ops {
+			if op.Svc >= n {
+				n = op.Svc + 1
+			}
+		}
+	}
+	return n
+}
+
+func c19SameView(a, b [][3]int) bool {
+	if len(a) != len(b) {
+		return false
+	}
+	for i := range a {
+		if a[i] != b[i] {
+			return false
+		}
+	}
+	return true
+}
 
 // kill ends every connection of the endpoint from the server side: by closing the socket, or
 // by sending bytes that are not a message (the client side then closes)
@@ -127,12 +314,18 @@ func runC19LifeChild(res *hx.Result, rng *hx.Rng, tier string, outdir string) {
 		os.Exit(3)
 	})
 	dirAddr := "unix://" + filepath.Join(lf.Dir, "d.sock")
-	if _, err := directory.NewServer(dirAddr, bus.Yes{}); err != nil {
+	dsrv, err := directory.NewServer(dirAddr, bus.Yes{})
+	if err != nil {
 		fail("directory", err)
 	}
 	srvSess, err := session.NewSession(dirAddr)
 	if err != nil {
 		fail("server-side session", err)
+	}
+	// the directory as seen through a connection that is not the client session's
+	dirProxy, err := services.ServiceDirectory(srvSess)
+	if err != nil {
+		fail("directory proxy", err)
 	}
 	coord := &c19Coord{release: make(chan struct{}), notify: make(chan struct{}, 256)}
 	coord.open()
@@ -146,7 +339,14 @@ func runC19LifeChild(res *hx.Result, rng *hx.Rng, tier string, outdir string) {
 			fail("listen", err)
 		}
 		gates[e] = newC19Gate(inner, coord)
-		ns, err := services.Namespace(srvSess, []string{addrs[e]})
+		advertised := []string{addrs[e]}
+		switch lf.Multi {
+		case 1:
+			advertised = []string{"tcp://198.18.0.1:9559", addrs[e]}
+		case 2:
+			advertised = []string{"unix://" + filepath.Join(lf.Dir, fmt.Sprintf("nobody%d.sock", e)), addrs[e]}
+		}
+		ns, err := services.Namespace(srvSess, advertised)
 		if err != nil {
 			fail("namespace", err)
 		}
@@ -155,19 +355,80 @@ func runC19LifeChild(res *hx.Result, rng *hx.Rng, tier string, outdir string) {
 			fail("server", err)
 		}
 	}
-	home := make([]int, lf.NSvc)
-	handle := make([]bus.Service, lf.NSvc)
-	lastID := make([]uint32, lf.NSvc)
-	for s := 0; s < lf.NSvc; s++ {
-		home[s] = s % lf.NEnd
-		handle[s], err = srvs[home[s]].NewService(c19LifeSvc(s), c19Object())
+	// endpoint -1 is the directory's own server (its address is pooled from the creation of the session)
+	addrOf := func(e int) string {
+		if e < 0 {
+			return dirAddr
+		}
+		return addrs[e]
+	}
+	serverOf := func(e int) bus.Server {
+		if e < 0 {
+			return dsrv
+		}
+		return srvs[e]
+	}
+	total := lf.total()
+	home := make([]int, total)
+	handle := make([]bus.Service, total)
+	lastID := make([]uint32, total) // the id under which the directory registered the service last
+	gen := make([]int, total)       // how many times it has been registered
+	reg := make([]bool, total)
+	var idmu sync.Mutex
+	idOf := map[uint32][2]int{} // service id -> (service, registration count)
+	register := func(s, e int) error {
+		h, err := serverOf(e).NewService(c19LifeSvc(s), c19Object())
 		if err != nil {
+			return err
+		}
+		idmu.Lock()
+		handle[s], home[s], reg[s], lastID[s] = h, e, true, h.ServiceID()
+		gen[s]++
+		idOf[h.ServiceID()] = [2]int{s, gen[s]}
+		idmu.Unlock()
+		return nil
+	}
+	unregister := func(s int) error {
+		err := handle[s].Terminate()
+		idmu.Lock()
+		reg[s] = false
+		idmu.Unlock()
+		return err
+	}
+	for s := 0; s < lf.NSvc; s++ {
+		if err := register(s, s%lf.NEnd); err != nil {
 			fail("new service", err)
 		}
 	}
-	sess, err := session.NewSession(dirAddr)
+	sessAddr := dirAddr
+	var relay *c19Relay
+	if lf.Relay {
+		var action uint32
+		for id, m := range dirProxy.Proxy().MetaObject().Methods {
+			if m.Name == "services" {
+				action = id
+			}
+		}
+		relay, err = newC19Relay(filepath.Join(lf.Dir, "r.sock"), filepath.Join(lf.Dir, "d.sock"), action)
+		if err != nil {
+			fail("relay", err)
+		}
+		sessAddr = "unix://" + filepath.Join(lf.Dir, "r.sock")
+	}
+	sess, err := session.NewSession(sessAddr)
 	if err != nil {
 		fail("client session", err)
+	}
+	// the address of a listed service that can be connected: the last one it advertises
+	connectable := func(i services.ServiceInfo) string {
+		want := 1
+		if lf.Multi > 0 && len(i.Endpoints) > 0 && i.Endpoints[len(i.Endpoints)-1] != dirAddr {
+			want = 2
+		}
+		if len(i.Endpoints) != want {
+			return ""
+		}
+		return i.Endpoints[want-1]
 	}
 	find := func(name string) (services.ServiceInfo, bool) {
 		for _, i := range session.VerifServices(sess) {
@@ -183,9 +444,6 @@ func runC19LifeChild(res *hx.Result, rng *hx.Rng, tier string, outdir string) {
 		for {
 			i, ok := find(c19LifeSvc(s))
 			if cond(i, ok) {
-				if ok {
-					lastID[s] = i.ServiceId
-				}
 				return true
 			}
 			if time.Now().After(deadline) {
@@ -197,10 +455,64 @@ func runC19LifeChild(res *hx.Result, rng *hx.Rng, tier string, outdir string) {
 	for s := 0; s < lf.NSvc; s++ {
 		e := home[s]
 		if !waitListed(s, func(i services.ServiceInfo, ok bool) bool {
-			return ok && len(i.Endpoints) == 1 && i.Endpoints[0] == addrs[e]
+			return ok && connectable(i) == addrs[e]
 		}) {
 			fail("set-up", fmt.Errorf("service %d never appeared in the session's list", s))
 		}
+	}
+	// a service list as (service, endpoint, registration count) triples of the services life_*, sorted;
+	// endpoint lf.NEnd is the directory's, 99 anything else; count 99: an id the directory never gave it
+	viewOf := func(list []services.ServiceInfo) [][3]int {
+		var v [][3]int
+		idmu.Lock()
+		defer idmu.Unlock()
+		for _, i := range list {
+			var s int
+			if n, err := fmt.Sscanf(i.Name, "life_%d", &s); n != 1 || err != nil {
+				continue
+			}
+			e := 99
+			if c := connectable(i); c != "" {
+				if c == dirAddr {
+					e = lf.NEnd
+				}
+				for x, a := range addrs {
+					if c == a {
+						e = x
+					}
+				}
+			}
+			g := 99
+			if sg, ok := idOf[i.ServiceId]; ok && sg[0] == s {
+				g = sg[1]
+			}
+			v = append(v, [3]int{s, e, g})
+		}
+		sort.Slice(v, func(a, b int) bool {
+			for k := 0; k < 3; k++ {
+				if v[a][k] != v[b][k] {
+					return v[a][k] < v[b][k]
+				}
+			}
+			return false
+		})
+		return v
+	}
+	// what the harness registered
+	wantView := func() [][3]int {
+		var v [][3]int
+		idmu.Lock()
+		defer idmu.Unlock()
+		for s := range reg {
+			if reg[s] {
+				e := home[s]
+				if e < 0 {
+					e = lf.NEnd
+				}
+				v = append(v, [3]int{s, e, gen[s]})
+			}
+		}
+		return v
 	}
 
 	var r c19LifeResult
@@ -211,58 +523,57 @@ func runC19LifeChild(res *hx.Result, rng *hx.Rng, tier string, outdir string) {
 		Signals:    make(map[uint32]object.MetaSignal),
 		Properties: make(map[uint32]object.MetaProperty),
 	})
-	// one request; g is its slot in the result
-	one := func(g int, rq c19Req) {
+	// one request: "" and true when it returned a proxy / client through which a call succeeds
+	try := func(rq c19Req) (string, bool, bus.Client) {
 		name := c19LifeSvc(rq.Svc)
-		set := func(err string, works bool, c bus.Client) {
-			rmu.Lock()
-			r.Errs[g], r.Works[g], clients[g] = err, works, c
-			rmu.Unlock()
+		objectID := uint32(1)
+		if rq.NoObj {
+			objectID = 77
 		}
 		switch rq.Kind {
 		case "hook":
 			info, ok := find(name)
 			if !ok {
-				set("service not in the session's list: "+name, false, nil)
-				return
+				return "service not in the session's list: " + name, false, nil
 			}
 			c, err := session.VerifClient(sess, info)
 			if err != nil {
-				set(err.Error(), false, nil)
-				return
+				return err.Error(), false, nil
 			}
-			if _, err := bus.GetMetaObject(c, info.ServiceId, 1); err != nil {
-				set("call through the client: "+err.Error(), false, c)
-				return
+			if _, err := bus.GetMetaObject(c, info.ServiceId, objectID); err != nil {
+				return "call through the client: " + err.Error(), false, c
 			}
-			set("", true, c)
+			return "", true, c
 		case "object":
+			// a reference to object 1 of the service as the directory registered it last
+			idmu.Lock()
 			id := lastID[rq.Svc]
-			if info, ok := find(name); ok {
-				id = info.ServiceId
-			}
-			p, err := sess.Object(object.ObjectReference{MetaObject: fullMeta, ServiceID: id, ObjectID: 1})
+			idmu.Unlock()
+			p, err := sess.Object(object.ObjectReference{MetaObject: fullMeta, ServiceID: id, ObjectID: objectID})
 			if err != nil {
-				set(err.Error(), false, nil)
-				return
+				return err.Error(), false, nil
 			}
 			if _, err := bus.MakeObject(p).IsStatsEnabled(); err != nil {
-				set("call through the proxy returned by Object: "+err.Error(), false, nil)
-				return
+				return "call through the proxy returned by Object: " + err.Error(), false, nil
 			}
-			set("", true, nil)
+			return "", true, nil
 		default:
-			p, err := sess.Proxy(name, 1)
+			p, err := sess.Proxy(name, objectID)
 			if err != nil {
-				set(err.Error(), false, nil)
-				return
+				return err.Error(), false, nil
 			}
 			if _, err := bus.MakeObject(p).IsStatsEnabled(); err != nil {
-				set("call through the proxy returned by Proxy: "+err.Error(), false, nil)
-				return
+				return "call through the proxy returned by Proxy: " + err.Error(), false, nil
 			}
-			set("", true, nil)
+			return "", true, nil
 		}
+	}
+	// g is the slot of the request in the result
+	one := func(g int, rq c19Req) {
+		e, w, c := try(rq)
+		rmu.Lock()
+		r.Errs[g], r.Works[g], clients[g] = e, w, c
+		rmu.Unlock()
 	}
 	readPool := func() (map[string]bus.Client, bool) {
 		type pr struct {
@@ -344,6 +655,7 @@ func runC19LifeChild(res *hx.Result, rng *hx.Rng, tier string, outdir string) {
 		os.Exit(0)
 	}
 
+	staleWait := 3 * time.Second
 	for pi, ph := range lf.Phases {
 		stage = fmt.Sprintf("phase %d (%s)", pi, ph.Kind)
 		var po c19PhaseObs
@@ -373,7 +685,7 @@ func runC19LifeChild(res *hx.Result, rng *hx.Rng, tier string, outdir string) {
 				coord.hold()
 				var wg, wgHit sync.WaitGroup
 				for j, rq := range ph.Reqs {
-					_, pooled := pool[addrs[home[rq.Svc]]]
+					_, pooled := pool[addrOf(home[rq.Svc])]
 					hit := rq.Gone || pooled
 					if hit {
 						wgHit.Add(1)
@@ -427,7 +739,7 @@ func runC19LifeChild(res *hx.Result, rng *hx.Rng, tier string, outdir string) {
 			po.PoolSame = true
 			if pool, ok := readPool(); ok {
 				for j, rq := range ph.Reqs {
-					if c := clients[base+j]; c != nil && pool[addrs[home[rq.Svc]]] != c {
+					if c := clients[base+j]; c != nil && pool[addrOf(home[rq.Svc])] != c {
 						po.PoolSame = false
 					}
 				}
@@ -462,20 +774,142 @@ func runC19LifeChild(res *hx.Result, rng *hx.Rng, tier string, outdir string) {
 			}
 			observe(&po)
 		case "unreg":
-			if err := handle[ph.Svc].Terminate(); err != nil {
+			if err := unregister(ph.Svc); err != nil {
 				fail("unregister", err)
 			}
 			po.Listed = waitListed(ph.Svc, func(_ services.ServiceInfo, ok bool) bool { return !ok })
+			po.View = viewOf(session.VerifServices(sess))
 			observe(&po)
 		case "rereg":
-			home[ph.Svc] = ph.To
-			handle[ph.Svc], err = srvs[ph.To].NewService(c19LifeSvc(ph.Svc), c19Object())
-			if err != nil {
+			if err := register(ph.Svc, ph.To); err != nil {
 				fail("register again", err)
 			}
 			po.Listed = waitListed(ph.Svc, func(i services.ServiceInfo, ok bool) bool {
-				return ok && len(i.Endpoints) == 1 && i.Endpoints[0] == addrs[ph.To]
+				return ok && connectable(i) == addrs[ph.To] && i.ServiceId == lastID[ph.Svc]
 			})
+			po.View = viewOf(session.VerifServices(sess))
+			observe(&po)
+		case "regs":
+			// requests for services that stay registered, repeated while the directory changes
+			stop := make(chan struct{})
+			var bgwg sync.WaitGroup
+			po.BgN, po.BgErr = make([]int, len(ph.Bg)), make([]string, len(ph.Bg))
+			for b, rq := range ph.Bg {
+				bgwg.Add(1)
+				go func(b int, rq c19Req) {
+					defer bgwg.Done()
+					for i := 0; i < 5000; i++ {
+						if i >= 20 {
+							select {
+							case <-stop:
+								return
+							default:
+							}
+						}
+						e, w, _ := try(rq)
+						rmu.Lock()
+						po.BgN[b]++
+						if (e != "" || !w) && po.BgErr[b] == "" {
+							po.BgErr[b] = fmt.Sprintf("request %d: %s", i, e)
+						}
+						rmu.Unlock()
+					}
+				}(b, rq)
+			}
+			spin := func(t0 time.Time, us int) {
+				for time.Since(t0) < time.Duration(us)*time.Microsecond {
+				}
+			}
+			do := func(op c19RegOp) {
+				switch op.Op {
+				case "add":
+					if err := register(op.Svc, op.To); err != nil {
+						fail("register", err)
+					}
+				case "del":
+					if err := unregister(op.Svc); err != nil {
+						fail("unregister", err)
+					}
+				case "move":
+					if err := unregister(op.Svc); err != nil {
+						fail("unregister", err)
+					}
+					if err := register(op.Svc, op.To); err != nil {
+						fail("register again", err)
+					}
+				}
+			}
+			if ph.Forced && relay != nil && len(ph.Ops) > 0 {
+				relay.arm()
+				do(ph.Ops[0])
+				select {
+				case <-relay.heldCh:
+					po.Held2 = true
+				case <-time.After(2 * time.Second):
+				}
+				signals := 0
+				for _, op := range ph.Ops[1:] {
+					spin(time.Now(), op.Gap)
+					do(op)
+					signals++
+					if op.Op == "move" {
+						signals++
+					}
+				}
+				// the signals of the further changes are behind the held reply
+				for t0 := time.Now(); po.Held2 && relay.behind() < signals && time.Since(t0) < 500*time.Millisecond; {
+					time.Sleep(200 * time.Microsecond)
+				}
+				relay.release()
+			} else if ph.Par {
+				var owg sync.WaitGroup
+				start := make(chan struct{})
+				for _, op := range ph.Ops {
+					owg.Add(1)
+					go func(op c19RegOp) {
+						defer owg.Done()
+						<-start
+						spin(time.Now(), op.Gap)
+						do(op)
+					}(op)
+				}
+				close(start)
+				owg.Wait()
+			} else {
+				for _, op := range ph.Ops {
+					spin(time.Now(), op.Gap)
+					do(op)
+				}
+			}
+			close(stop)
+			bgDone := make(chan struct{})
+			go func() { bgwg.Wait(); close(bgDone) }()
+			select {
+			case <-bgDone:
+			case <-time.After(8 * time.Second):
+				r.Timeout = true
+				finish()
+			}
+			// every change has been acknowledged by the directory: it is quiet from here on.  What it
+			// holds, read through another connection:
+			want := wantView()
+			if list, err := dirProxy.Services(); err == nil {
+				po.DirView = viewOf(list)
+			}
+			// ... and the session's list, once it agrees or 3 s later (300 ms once a list of this life has
+			// been found stale: the life has failed already, and its watchdog is 30 s)
+			t0 := time.Now()
+			for {
+				po.View = viewOf(session.VerifServices(sess))
+				if po.Listed = c19SameView(po.View, want); po.Listed || time.Since(t0) > staleWait {
+					break
+				}
+				time.Sleep(2 * time.Millisecond)
+			}
+			po.WaitedMs = int(time.Since(t0) / time.Millisecond)
+			if !po.Listed {
+				staleWait = 300 * time.Millisecond
+			}
 			observe(&po)
 		}
 		r.Phases = append(r.Phases, po)
@@ -553,6 +987,9 @@ func (lf c19Life) String() string {
 				if rq.Gone {
 					t += "!unregistered"
 				}
+				if rq.NoObj {
+					t += "!no-such-object"
+				}
 				rs = append(rs, t)
 			}
 			k := "together"
@@ -566,28 +1003,95 @@ func (lf c19Life) String() string {
 			ps = append(ps, fmt.Sprintf("unregister(s%d)", ph.Svc))
 		case "rereg":
 			ps = append(ps, fmt.Sprintf("register(s%d@e%d)", ph.Svc, ph.To))
+		case "regs":
+			at := func(e int) string {
+				if e < 0 {
+					return "dir"
+				}
+				return fmt.Sprintf("e%d", e)
+			}
+			var os []string
+			for _, op := range ph.Ops {
+				t := ""
+				switch op.Op {
+				case "add":
+					t = fmt.Sprintf("+s%d@%s", op.Svc, at(op.To))
+				case "del":
+					t = fmt.Sprintf("-s%d", op.Svc)
+				case "move":
+					t = fmt.Sprintf("s%d->%s", op.Svc, at(op.To))
+				}
+				os = append(os, fmt.Sprintf("%s after %dus", t, op.Gap))
+			}
+			k := "one after the other"
+			if ph.Par {
+				k = "each from its own goroutine"
+			}
+			if ph.Forced {
+				k = "the first, then — the reply to the Services() call it triggers held by the relay — the others, then reply and signals delivered together"
+			}
+			t := fmt.Sprintf("directory changes %s[%s]", k, strings.Join(os, ", "))
+			if len(ph.Bg) > 0 {
+				var rs []string
+				for _, rq := range ph.Bg {
+					rs = append(rs, fmt.Sprintf("%s(s%d)", rq.Kind, rq.Svc))
+				}
+				t += " while goroutines repeat[" + strings.Join(rs, " ") + "]"
+			}
+			ps = append(ps, t+" then quiet")
 		}
 	}
-	return fmt.Sprintf("life on one session, %d endpoints, services s0..s%d (s_i first behind e_(i mod %d)): %s",
-		lf.NEnd, lf.NSvc-1, lf.NEnd, strings.Join(ps, " ; "))
+	via := ""
+	if lf.Relay {
+		via = " (connected to the directory through a relay of the harness)"
+	}
+	switch lf.Multi {
+	case 1:
+		via += " (every service behind e_i advertises tcp://198.18.0.1:9559 first, then e_i)"
+	case 2:
+		via += " (every service behind e_i advertises a unix socket nobody listens on first, then e_i)"
+	}
+	return fmt.Sprintf("life on one session%s, %d endpoints, services s0..s%d (s_i first behind e_(i mod %d)): %s",
+		via, lf.NEnd, lf.NSvc-1, lf.NEnd, strings.Join(ps, " ; "))
 }
 
 // what the harness expects of a life, from its own bookkeeping of registrations and losses
 type c19LifeSim struct {
-	reqEp    []int  // per modelled request (not Gone): endpoint of its service at that moment
-	reqEpoch []int  // ... and how many times that endpoint's connection had been lost before
-	reqPhase []int  // per request (all): phase index
-	modelled []bool // per request (all)
-	twoMiss  bool   // some held burst has two requests missing the pool for the same endpoint
-	afterLos bool   // some request asks for a service behind an endpoint whose connection was lost before
+	reqEp    []int            // per modelled request: endpoint of its service at that moment
+	reqEpoch []int            // ... and how many times that endpoint's connection had been lost before
+	reqPhase []int            // per request (all): phase index
+	mustWork []bool           // per request (all): its service is registered at that moment
+	modelled []bool           // per request (all): registered, and not hosted by the directory's own server (whose connection exists from the start and is not part of the machine)
+	twoMiss  bool             // some held burst has two requests missing the pool for the same endpoint
+	afterLos bool             // some request asks for a service behind an endpoint whose connection was lost before
+	view0    [][3]int         // the services registered at the start as (service, endpoint, registration count)
+	views    map[int][][3]int // per regs phase: what is registered after it
+	burstReg bool             // some regs phase registers two services or more
 }
 
 func (lf c19Life) sim() c19LifeSim {
-	var s c19LifeSim
-	home := make([]int, lf.NSvc)
-	for i := range home {
-		home[i] = i % lf.NEnd
+	s := c19LifeSim{views: map[int][][3]int{}}
+	total := lf.total()
+	home := make([]int, total)
+	reg := make([]bool, total)
+	gen := make([]int, total)
+	for i := 0; i < lf.NSvc; i++ {
+		home[i], reg[i], gen[i] = i%lf.NEnd, true, 1
 	}
+	view := func() [][3]int {
+		var v [][3]int
+		for i := range reg {
+			if reg[i] {
+				e := home[i]
+				if e < 0 {
+					e = lf.NEnd
+				}
+				v = append(v, [3]int{i, e, gen[i]})
+			}
+		}
+		return v
+	}
+	s.view0 = view()
 	pooled := make([]bool, lf.NEnd)
 	epoch := make([]int, lf.NEnd)
 	for pi, ph := range lf.Phases {
@@ -596,11 +1100,12 @@ func (lf c19Life) sim() c19LifeSim {
 			miss := map[int]int{}
 			for _, rq := range ph.Reqs {
 				s.reqPhase = append(s.reqPhase, pi)
-				s.modelled = append(s.modelled, !rq.Gone)
-				if rq.Gone {
+				s.mustWork = append(s.mustWork, !rq.Gone && !rq.NoObj)
+				e := home[rq.Svc]
+				s.modelled = append(s.modelled, !rq.Gone && e >= 0)
+				if rq.Gone || e < 0 {
 					continue
 				}
-				e := home[rq.Svc]
 				s.reqEp = append(s.reqEp, e)
 				s.reqEpoch = append(s.reqEpoch, epoch[e])
 				if epoch[e] > 0 {
@@ -619,8 +1124,27 @@ func (lf c19Life) sim() c19LifeSim {
 		case "lose":
 			pooled[ph.End] = false
 			epoch[ph.End]++
+		case "unreg":
+			reg[ph.Svc] = false
 		case "rereg":
-			home[ph.Svc] = ph.To
+			home[ph.Svc], reg[ph.Svc] = ph.To, true
+			gen[ph.Svc]++
+		case "regs":
+			n := 0
+			for _, op := range ph.Ops {
+				switch op.Op {
+				case "add", "move":
+					home[op.Svc], reg[op.Svc] = op.To, true
+					gen[op.Svc]++
+					n++
+				case "del":
+					reg[op.Svc] = false
+				}
+			}
+			if n >= 2 {
+				s.burstReg = true
+			}
+			s.views[pi] = view()
 		}
 	}
 	return s
@@ -724,6 +1248,256 @@ func c19FinalRound(nsvc int) c19Phase {
 	return ph
 }
 
+// c19GenViewLife draws a life about the session's VIEW of the directory: `trials` times a burst of
+// 2..5 directory changes microseconds apart (services becoming ready behind the endpoints or on the
+// directory's own server, services removed, services moving — removed and registered again at
+// once), some of them while goroutines keep asking for services that stay registered, then, with
+// the directory quiet, requests for the services that were touched and some others; now and then
+// a pooled connection is lost in between.  Ends with an Object and a Proxy request per
+// registered service.
+func c19GenViewLife(rng *hx.Rng, trials int) c19Life {
+	ne := 1 + rng.Intn(3)
+	lf := c19Life{NEnd: ne, NSvc: ne + rng.Intn(2), Relay: rng.Bool(), Multi: rng.Intn(3)}
+	home := make([]int, lf.NSvc)
+	reg := make([]bool, lf.NSvc)
+	for i := range home {
+		home[i], reg[i] = i%ne, true
+	}
+	pooled := make([]bool, ne)
+	kinds := []string{"proxy", "object", "hook"}
+	gaps := []int{0, 0, 10, 20, 40, 60, 90, 130, 180, 250, 400}
+	live := func(except map[int]bool) []int {
+		var l []int
+		for s, ok := range reg {
+			if ok && !except[s] {
+				l = append(l, s)
+			}
+		}
+		return l
+	}
+	place := func() int {
+		// (through the relay the directory's own address is not the pooled one: no service there)
+		if !lf.Relay && rng.Chance(0.3) {
+			return -1
+		}
+		return rng.Intn(ne)
+	}
+	// the first burst pools every endpoint
+	first := c19Phase{Kind: "burst", Seq: rng.Bool()}
+	for s := 0; s < lf.NSvc; s++ {
+		first.Reqs = append(first.Reqs, c19Req{Svc: s, Kind: kinds[rng.Intn(3)]})
+		pooled[home[s]] = true
+	}
+	lf.Phases = append(lf.Phases, first)
+	for t := 0; t < trials; t++ {
+		ph := c19Phase{Kind: "regs", Par: rng.Chance(0.3)}
+		k := 2 + rng.Intn(4)
+		if lf.Relay && rng.Chance(0.6) {
+			ph.Par, ph.Forced = false, true
+			if rng.Bool() {
+				k = 2
+			}
+		}
+		touched := map[int]bool{}
+		var asked []c19Req
+		signals := 0
+		for j := 0; j < k && signals < 6; j++ {
+			gap := gaps[rng.Intn(len(gaps))]
+			if j == 0 {
+				gap = 0
+			}
+			cand := live(touched)
+			switch x := rng.Intn(100); {
+			case x < 60 || len(cand) <= 2:
+				s := len(reg)
+				home, reg = append(home, place()), append(reg, true)
+				touched[s] = true
+				ph.Ops = append(ph.Ops, c19RegOp{Op: "add", Svc: s, To: home[s], Gap: gap})
+				asked = append(asked, c19Req{Svc: s, Kind: kinds[rng.Intn(3)]})
+				signals++
+			case x < 78:
+				s := cand[rng.Intn(len(cand))]
+				reg[s], touched[s] = false, true
+				ph.Ops = append(ph.Ops, c19RegOp{Op: "del", Svc: s, Gap: gap})
+				if rng.Bool() {
+					asked = append(asked, c19Req{Svc: s, Kind: kinds[rng.Intn(2)], Gone: true})
+				}
+				signals++
+			default:
+				s := cand[rng.Intn(len(cand))]
+				home[s], touched[s] = place(), true
+				ph.Ops = append(ph.Ops, c19RegOp{Op: "move", Svc: s, To: home[s], Gap: gap})
+				asked = append(asked, c19Req{Svc: s, Kind: kinds[rng.Intn(3)]})
+				signals += 2
+			}
+		}
+		// background requests: services that stay registered, on connections that exist
+		if rng.Chance(0.5) {
+			var ok []int
+			for _, s := range live(touched) {
+				if home[s] < 0 || pooled[home[s]] {
+					ok = append(ok, s)
+				}
+			}
+			for b, n := 0, 1+rng.Intn(3); b < n && len(ok) > 0; b++ {
+				ph.Bg = append(ph.Bg, c19Req{Svc: ok[rng.Intn(len(ok))], Kind: kinds[rng.Intn(3)]})
+			}
+		}
+		lf.Phases = append(lf.Phases, ph)
+		// with the directory quiet: the services of the burst, and some others
+		cand := live(touched)
+		for j, n := 0, rng.Intn(3); j < n && len(cand) > 0; j++ {
+			asked = append(asked, c19Req{Svc: cand[rng.Intn(len(cand))], Kind: kinds[rng.Intn(3)]})
+		}
+		// a request that the server refuses (no such object) among them: the others share its connection
+		if all := live(nil); rng.Chance(0.3) {
+			asked = append(asked, c19Req{Svc: all[rng.Intn(len(all))], Kind: kinds[rng.Intn(3)], NoObj: true})
+		}
+		for i := len(asked) - 1; i > 0; i-- {
+			j := rng.Intn(i + 1)
+			asked[i], asked[j] = asked[j], asked[i]
+		}
+		for _, rq := range asked {
+			if !rq.Gone && home[rq.Svc] >= 0 {
+				pooled[home[rq.Svc]] = true
+			}
+		}
+		lf.Phases = append(lf.Phases, c19Phase{Kind: "burst", Seq: rng.Chance(0.4), Reqs: asked})
+		if rng.Intn(7) == 0 {
+			var c []int
+			for e, ok := range pooled {
+				if ok {
+					c = append(c, e)
+				}
+			}
+			if len(c) > 0 {
+				e := c[rng.Intn(len(c))]
+				pooled[e] = false
+				lf.Phases = append(lf.Phases, c19Phase{Kind: "lose", End: e, How: []string{"peer", "garbage", "local"}[rng.Intn(3)]})
+			}
+		}
+	}
+	lf.Phases = append(lf.Phases, c19FinalRoundOf(live(nil)))
+	return lf
+}
+
+func c19FinalRoundOf(svcs []int) c19Phase {
+	ph := c19Phase{Kind: "burst", Seq: true}
+	for _, s := range svcs {
+		ph.Reqs = append(ph.Reqs, c19Req{Svc: s, Kind: "object"}, c19Req{Svc: s, Kind: "proxy"})
+	}
+	return ph
+}
+
+// view lives that are always run
+func c19DirectedViewLives() []c19Life {
+	rq := func(kind string, s int) c19Req { return c19Req{Svc: s, Kind: kind} }
+	var out []c19Life
+	// the schedule forced through the relay: one change, the refresh it triggers takes its snapshot,
+	// ONE further change (registration / removal / move), then the reply of that refresh and the
+	// signal of the further change reach the session together
+	lf := c19Life{NEnd: 2, NSvc: 2, Relay: true, Multi: 1, Phases: []c19Phase{{Kind: "burst", Reqs: []c19Req{rq("proxy", 0), rq("hook", 1), rq("object", 1)}}}}
+	livef := []int{0, 1}
+	n := 2
+	for t := 0; t < 10; t++ {
+		x, y := n, n+1
+		switch t % 5 {
+		case 0, 1: // two services of one process / of two processes
+			n += 2
+			livef = append(livef, x, y)
+			lf.Phases = append(lf.Phases,
+				c19Phase{Kind: "regs", Forced: true, Ops: []c19RegOp{{Op: "add", Svc: x, To: t % 2}, {Op: "add", Svc: y, To: (t + t%5) % 2, Gap: 20 * t}}},
+				c19Phase{Kind: "burst", Seq: t%2 == 0, Reqs: []c19Req{rq("proxy", y), {Svc: x, Kind: "proxy", NoObj: true}, rq("proxy", x), rq("object", y), rq("hook", x)}})
+		case 2: // a removal, then a registration behind it
+			n++
+			gone := livef[len(livef)-1]
+			livef = append(livef[:len(livef)-1], x)
+			lf.Phases = append(lf.Phases,
+				c19Phase{Kind: "regs", Forced: true, Ops: []c19RegOp{{Op: "del", Svc: gone}, {Op: "add", Svc: x, To: 1}}},
+				c19Phase{Kind: "burst", Reqs: []c19Req{rq("proxy", x), {Svc: gone, Kind: "proxy", Gone: true}, rq("object", x), rq("hook", 0)}})
+		case 3: // a registration, then a service of the start moves
+			n++
+			livef = append(livef, x)
+			lf.Phases = append(lf.Phases,
+				c19Phase{Kind: "regs", Forced: true, Ops: []c19RegOp{{Op: "add", Svc: x, To: 0}, {Op: "move", Svc: 1, To: (t / 5) % 2}}},
+				c19Phase{Kind: "burst", Seq: true, Reqs: []c19Req{rq("proxy", 1), {Svc: 1, Kind: "hook", NoObj: true}, rq("object", 1), rq("proxy", x), {Svc: x, Kind: "object", NoObj: true}, rq("hook", 1)}})
+		case 4: // a move, then a registration
+			n++
+			livef = append(livef, x)
+			lf.Phases = append(lf.Phases,
+				c19Phase{Kind: "regs", Forced: true, Ops: []c19RegOp{{Op: "move", Svc: 0, To: 1 - (t/5)%2}, {Op: "add", Svc: x, To: 1}}},
+				c19Phase{Kind: "burst", Reqs: []c19Req{rq("object", x), rq("proxy", 0), rq("proxy", x), rq("object", 0)}})
+		}
+	}
+	lf.Phases = append(lf.Phases, c19FinalRoundOf(livef))
+	out = append(out, lf)
+	// two services become ready 0..330 us apart (as when a process hosting two services starts);
+	// then, with the directory quiet, goroutines ask for both — on the endpoint's server, on the
+	// directory's own server
+	for _, to := range []int{0, -1} {
+		lf := c19Life{NEnd: 1, NSvc: 1, Phases: []c19Phase{{Kind: "burst", Seq: true, Reqs: []c19Req{rq("proxy", 0)}}}}
+		var all []int
+		all = append(all, 0)
+		for t := 0; t < 12; t++ {
+			a, b := 1+2*t, 2+2*t
+			all = append(all, a, b)
+			lf.Phases = append(lf.Phases,
+				c19Phase{Kind: "regs", Ops: []c19RegOp{{Op: "add", Svc: a, To: to}, {Op: "add", Svc: b, To: to, Gap: 30 * t}}},
+				c19Phase{Kind: "burst", Seq: t%2 == 1, Reqs: []c19Req{rq("proxy", a), rq("proxy", b), rq([]string{"object", "hook"}[t%2], b)}})
+		}
+		lf.Phases = append(lf.Phases, c19FinalRoundOf(all))
+		out = append(out, lf)
+	}
+	// bursts of five from five goroutines, behind two endpoints and the directory, while three
+	// goroutines keep asking for the two services that were there from the start; every second
+	// burst removes what the previous one added
+	lf = c19Life{NEnd: 2, NSvc: 2, Phases: []c19Phase{{Kind: "burst", Reqs: []c19Req{rq("hook", 0), rq("proxy", 1), rq("object", 0)}}}}
+	bg := []c19Req{rq("proxy", 0), rq("object", 1), rq("hook", 1)}
+	n = 2
+	for t := 0; t < 8; t++ {
+		add := c19Phase{Kind: "regs", Par: true, Bg: bg}
+		var after []c19Req
+		for j := 0; j < 5; j++ {
+			add.Ops = append(add.Ops, c19RegOp{Op: "add", Svc: n + j, To: (t+j)%3 - 1, Gap: 25 * j * (t % 4)})
+			after = append(after, rq([]string{"proxy", "object", "hook"}[(t+j)%3], n+j))
+		}
+		lf.Phases = append(lf.Phases, add, c19Phase{Kind: "burst", Reqs: after})
+		if t%2 == 1 {
+			del := c19Phase{Kind: "regs", Bg: bg[:2]}
+			for j := 0; j < 5; j++ {
+				del.Ops = append(del.Ops, c19RegOp{Op: "del", Svc: n + j, Gap: 15 * j})
+			}
+			lf.Phases = append(lf.Phases, del, c19Phase{Kind: "burst", Seq: true, Reqs: []c19Req{{Svc: n, Kind: "proxy", Gone: true}, rq("proxy", 0), rq("object", 1)}})
+		}
+		n += 5
+	}
+	var left []int
+	left = append(left, 0, 1)
+	for t := 0; t < 8; t += 2 {
+		for j := 0; j < 5; j++ {
+			left = append(left, 2+5*t+j)
+		}
+	}
+	lf.Phases = append(lf.Phases, c19FinalRoundOf(left))
+	out = append(out, lf)
+	// services that move in pairs (removed and registered again at once, new id, other endpoint)
+	lf = c19Life{NEnd: 2, NSvc: 4, Multi: 2, Phases: []c19Phase{{Kind: "burst", Seq: true, Reqs: []c19Req{rq("object", 0), rq("proxy", 1), rq("hook", 2), rq("proxy", 3)}}}}
+	where := []int{0, 1, 0, 1}
+	for t := 0; t < 10; t++ {
+		a, b := t%4, (t+1+t/4)%4
+		if a == b {
+			b = (b + 1) % 4
+		}
+		where[a], where[b] = 1-where[a], 1-where[b]
+		lf.Phases = append(lf.Phases,
+			c19Phase{Kind: "regs", Par: t%3 == 2, Ops: []c19RegOp{{Op: "move", Svc: a, To: where[a]}, {Op: "move", Svc: b, To: where[b], Gap: 40 * (t % 5)}}},
+			c19Phase{Kind: "burst", Seq: t%2 == 0, Reqs: []c19Req{rq("proxy", a), rq("object", b), rq("hook", b), rq("object", a)}})
+	}
+	lf.Phases = append(lf.Phases, c19FinalRoundOf([]int{0, 1, 2, 3}))
+	out = append(out, lf)
+	return out
+}
+
 // lives that are always run: the shortest histories of each kind
 func c19DirectedLives() []c19Life {
 	rq := func(kind string, s int) c19Req { return c19Req{Svc: s, Kind: kind} }
@@ -762,31 +1536,73 @@ func c19DirectedLives() []c19Life {
 	return out
 }
 
+func c19ViewTerm(v [][3]int) string {
+	es := make([]string, len(v))
+	for i, x := range v {
+		es[i] = fmt.Sprintf("(%d, (%d, %d))", x[0], x[1], x[2])
+	}
+	return hx.List(es)
+}
+
 func c19LifeTerm(lf c19Life, sm c19LifeSim, o c19LifeObs) string {
 	var phs []string
 	g := 0 // index among the modelled requests
+	q := 0 // index among all requests
+	total := lf.total()
+	gen := make([]int, total)
+	for i := 0; i < lf.NSvc; i++ {
+		gen[i] = 1
+	}
+	ep := func(e int) int {
+		if e < 0 {
+			return lf.NEnd
+		}
+		return e
+	}
 	for pi, ph := range lf.Phases {
-		obs := "{| lo_accepted := []; lo_open := []; lo_pooled := [] |}"
+		obs := "{| lo_accepted := []; lo_open := []; lo_pooled := []; lo_view := [] |}"
 		if o.class == "ok" && pi < len(o.res.Phases) {
 			po := o.res.Phases[pi]
 			bs := make([]string, len(po.Pooled))
 			for i, b := range po.Pooled {
 				bs[i] = hx.Bool(b)
 			}
-			obs = fmt.Sprintf("{| lo_accepted := %s; lo_open := %s; lo_pooled := %s |}", hx.NatList(po.Accepted), hx.NatList(po.Open), hx.List(bs))
+			obs = fmt.Sprintf("{| lo_accepted := %s; lo_open := %s; lo_pooled := %s; lo_view := %s |}", hx.NatList(po.Accepted), hx.NatList(po.Open), hx.List(bs), c19ViewTerm(po.View))
 		}
 		switch ph.Kind {
 		case "burst":
 			var eps []int
-			for _, rq := range ph.Reqs {
-				if !rq.Gone {
+			for range ph.Reqs {
+				if sm.modelled[q] {
 					eps = append(eps, sm.reqEp[g])
 					g++
 				}
+				q++
 			}
 			phs = append(phs, fmt.Sprintf("(PBurst %s %s, %s)", hx.NatList(eps), hx.Bool(ph.Seq), obs))
 		case "lose":
 			phs = append(phs, fmt.Sprintf("(PLose %d, %s)", ph.End, obs))
+		case "unreg":
+			phs = append(phs, fmt.Sprintf("(PRegs [RDel %d], %s)", ph.Svc, obs))
+		case "rereg":
+			gen[ph.Svc]++
+			phs = append(phs, fmt.Sprintf("(PRegs [RAdd %d %d %d], %s)", ph.Svc, ep(ph.To), gen[ph.Svc], obs))
+		case "regs":
+			// the changes of the directory, in the order in which they were started
+			var ops []string
+			for _, op := range ph.Ops {
+				switch op.Op {
+				case "add":
+					gen[op.Svc]++
+					ops = append(ops, fmt.Sprintf("RAdd %d %d %d", op.Svc, ep(op.To), gen[op.Svc]))
+				case "del":
+					ops = append(ops, fmt.Sprintf("RDel %d", op.Svc))
+				case "move":
+					gen[op.Svc]++
+					ops = append(ops, fmt.Sprintf("RDel %d", op.Svc), fmt.Sprintf("RAdd %d %d %d", op.Svc, ep(op.To), gen[op.Svc]))
+				}
+			}
+			phs = append(phs, fmt.Sprintf("(PRegs %s, %s)", hx.List(ops), obs))
 		}
 	}
 	var ids []string
@@ -800,7 +1616,7 @@ func c19LifeTerm(lf c19Life, sm c19LifeSim, o c19LifeObs) string {
 			ids = append(ids, "None")
 		}
 	}
-	return fmt.Sprintf("{| lc_fatal := %s; lc_phases := %s; lc_ids := %s |}", hx.Bool(o.class == "fatal"), hx.List(phs), hx.List(ids))
+	return fmt.Sprintf("{| lc_fatal := %s; lc_view0 := %s; lc_phases := %s; lc_ids := %s |}", hx.Bool(o.class == "fatal"), c19ViewTerm(sm.view0), hx.List(phs), hx.List(ids))
 }
 
 // runC19Lives runs the lives and evaluates the property on what the session did
@@ -812,6 +1628,19 @@ func runC19Lives(res *hx.Result, rng *hx.Rng, tier string, outdir string, defect
 	lives := c19DirectedLives()
 	for i := 0; i < n; i++ {
 		lives = append(lives, c19GenLife(rng))
+	}
+	// two lives in three with services that advertise an unreachable address first
+	for i := range lives {
+		lives[i].Multi = i % 3
+	}
+	// the session's view of the directory over time (bursts of registrations during refreshes)
+	nv, trials := 6, 12
+	if tier == "thorough" {
+		nv, trials = 60, 16
+	}
+	lives = append(lives, c19DirectedViewLives()...)
+	for i := 0; i < nv; i++ {
+		lives = append(lives, c19GenViewLife(rng, trials))
 	}
 	obs := make([]c19LifeObs, len(lives))
 	var wg sync.WaitGroup
@@ -830,16 +1659,39 @@ func runC19Lives(res *hx.Result, rng *hx.Rng, tier string, outdir string, defect
 		o := obs[i]
 		sm := lf.sim()
 		desc := lf.String()
-		res.Count(desc, sm.afterLos)
+		res.Count(desc, sm.afterLos || sm.burstReg)
 		res.Dist("life:outcome:" + o.class)
 		res.Dist(fmt.Sprintf("life:endpoints:%d", lf.NEnd))
+		res.Dist([]string{"life:services-advertise:one-address", "life:services-advertise:test-range-address-first", "life:services-advertise:dead-unix-socket-first"}[lf.Multi])
 		for _, ph := range lf.Phases {
 			switch ph.Kind {
 			case "lose":
 				res.Dist("life:loss:" + ph.How)
 			case "rereg":
 				res.Dist("life:service-moved")
+			case "regs":
+				res.Dist(fmt.Sprintf("life:directory-changes-in-a-burst:%d", len(ph.Ops)))
+				if ph.Par {
+					res.Dist("life:directory-changes:concurrent")
+				}
+				if ph.Forced {
+					res.Dist("life:directory-changes:behind-a-held-refresh")
+				}
+				if len(ph.Bg) > 0 {
+					res.Dist("life:directory-changes:during-requests")
+				}
+				for _, op := range ph.Ops {
+					res.Dist("life:directory-change:" + op.Op)
+					if op.To < 0 && op.Op != "del" {
+						res.Dist("life:service-on-the-directory-server")
+					}
+				}
 			case "burst":
+				for _, rq := range ph.Reqs {
+					if rq.NoObj {
+						res.Dist("life:request-for-a-missing-object")
+					}
+				}
 				if ph.Seq {
 					res.Dist("life:burst:in-turn")
 				} else {
@@ -847,7 +1699,7 @@ func runC19Lives(res *hx.Result, rng *hx.Rng, tier string, outdir string, defect
 				}
 			}
 		}
-		if i < 3 || i == len(c19DirectedLives()) {
+		if i < 3 || i == len(c19DirectedLives()) || i == len(c19DirectedLives())+n+2 {
 			var snap []string
 			for _, po := range o.res.Phases {
 				snap = append(snap, fmt.Sprintf("acc=%v open=%v pooled=%v", po.Accepted, po.Open, po.Pooled))
@@ -881,7 +1733,7 @@ func runC19Lives(res *hx.Result, rng *hx.Rng, tier string, outdir string, defect
 				continue
 			}
 			for q := range sm.reqPhase {
-				if !sm.modelled[q] {
+				if !sm.mustWork[q] {
 					continue // a request for an unregistered service only has to return
 				}
 				if o.res.Errs[q] != "" || !o.res.Works[q] {
@@ -907,6 +1759,43 @@ func runC19Lives(res *hx.Result, rng *hx.Rng, tier string, outdir string, defect
 				}
 				if lf.Phases[pi].Kind == "burst" && !lf.Phases[pi].Seq && po.Held < po.Expected {
 					forced = false
+				}
+				if lf.Phases[pi].Kind == "regs" && lf.Phases[pi].Forced && !po.Held2 {
+					res.Dist("life:refresh-not-held")
+					res.Notes = append(res.Notes, fmt.Sprintf("%s: phase %d: the relay saw no Services() reply to hold within 2 s of the first change", desc, pi))
+				}
+				if lf.Phases[pi].Kind == "regs" {
+					// requests for services that were registered all along, made while the directory changed
+					for b, e := range po.BgErr {
+						rq := lf.Phases[pi].Bg[b]
+						if e == "" {
+							continue
+						}
+						detail := fmt.Sprintf("%s: phase %d: the goroutine repeating %s(s%d) — registered before, during and after the changes — got no working proxy at %s (of %d requests)", desc, pi, rq.Kind, rq.Svc, e, po.BgN[b])
+						if strings.Contains(e, net.ErrConsumerBlocked.Error()) {
+							res.FailKnown("request-failed", detail, "consumer_queue_overflow")
+						} else {
+							fail("request-failed", detail)
+						}
+					}
+					// the session's list, with the directory quiet
+					want := sm.views[pi]
+					if !c19SameView(po.DirView, want) {
+						res.Notes = append(res.Notes, fmt.Sprintf("%s: phase %d: the directory itself lists %v (service, endpoint, registration), the harness registered %v", desc, pi, po.DirView, want))
+						res.Dist("life:directory-did-not-follow")
+						forced = false
+					} else if !po.Listed {
+						listed := map[[3]int]bool{}
+						for _, v := range po.View {
+							listed[v] = true
+						}
+						for _, w := range want {
+							if !listed[w] {
+								fail("service-not-listed", fmt.Sprintf("%s: phase %d: %d ms after the last change was acknowledged, with the directory quiet (it lists %v as service, endpoint, registration), the session's list is %v: a request for s%d cannot succeed", desc, pi, po.WaitedMs, po.DirView, po.View, w[0]))
+								break
+							}
+						}
+					}
 				}
 			}
 			// clients: shared while the connection lives, replaced after it was lost
